@@ -103,17 +103,28 @@ def strip_cuts(e):
     return e
 
 
+def render_full(rules, decorators=None):
+    """grammar text with rule decorators ({rule: ['name', 'nomemo', ...]})"""
+    from .refpeg import render as rexp
+    decorators = decorators or {}
+    return ''.join(''.join(f'@{d}\n' for d in decorators.get(n, [])) + f'{n}: {rexp(e)} ;\n' for n, e in rules)
+
+
 def make_peg(spec):
     """One text, several evaluations that must agree.
     spec: rules, directives, start, n, settings (parse-time settings of the real side), ref (settings of the reference, or
     False for none), gen (also the generated parser), nocut (also: cut-free grammar agrees wherever the grammar accepts),
     variants (list of extra parse-time settings: self-differential modulo parseinfo)."""
-    rules = rules_of(spec)
     directives = spec.get('directives', '')
-    gtext = directives + render_grammar(rules)
+    if 'gtext' in spec:      # raw grammar text (no reference evaluator for it)
+        rules = []
+        gtext = spec['gtext']
+    else:
+        rules = rules_of(spec)
+        gtext = directives + render_full(rules, spec.get('decorators'))
     start = spec.get('start')
     eng = Engine(gtext, spec.get('settings'), start)
-    use_ref = spec.get('ref', {}) is not False
+    use_ref = spec.get('ref', {}) is not False and 'gtext' not in spec
     g = G(rules, **(spec.get('ref') or {})) if use_ref else None
     gen = GenParser(gtext, spec.get('settings'), start) if spec.get('gen') else None
     nocut = None
@@ -162,6 +173,8 @@ def make_peg(spec):
                 return False, 'gen-outcome', [real[0], other[0], other[1] if other[0] in ('exception',) else None]
             if real[0] == 'ok' and not (norm(other[1]) == ast):
                 return False, 'gen-ast', [skel(ast), skel(norm(other[1]))]
+            if real[0] == 'fail' and spec.get('gen_failpos') and other[1] != real[1]:
+                return False, 'gen-failpos', [real[1], other[1]]
         # cut erasure: only claimed when no commit was used, i.e. the committed paths themselves parse the input
         if nocut is not None and real[0] == 'ok' and not (use_ref and ref[3]):
             other = guarded(nocut.parse, t)
